@@ -95,3 +95,35 @@ package codegen
 //@   contains kernel vertex fragment device constant threadgroup thread half uint ushort uchar metal
 //@   contains main
 //@   none-suffix _
+//
+// Helpers of the expression/statement remapper: every handle goes through the
+// map function; optional handles are remapped into fresh cells (the cells passed
+// in are shared with the caller's module and must not be written).
+//
+//@ func adjustAtomicFun
+//@   mode bv
+//@   tags C14 C12 C13
+//@   purefn adjust
+//@   traverse remap fun ir.ExpressionHandle adjust($)
+//@   nopanic
+//
+//@ func adjustImageSampleLevel
+//@   mode bv
+//@   tags C14 C13
+//@   purefn adjust
+//@   traverse remap level ir.ExpressionHandle adjust($)
+//@   nopanic
+//
+//@ func adjustRayQueryStmt
+//@   mode bv
+//@   tags C14 C13
+//@   purefn adjust
+//@   traverse remap k ir.ExpressionHandle adjust($)
+//@   nopanic
+//
+//@ func adjustSubgroupGatherStmt
+//@   mode bv
+//@   tags C14 C13
+//@   purefn adjust
+//@   traverse remap k ir.ExpressionHandle adjust($)
+//@   nopanic
